@@ -257,6 +257,15 @@ def geometry(tier, rng):
                         "%" + w + " 1" + nl + "--- a" + nl, "%FOO" + w + " bar" + nl + "--- a" + nl, "&" + w + tail + nl, "- &" + w + " a" + nl + "- *" + w + nl,
                         "!<" + w + ">" + tail + nl, "!!" + w + tail + nl, "k: v # " + w + nl + "m: n" + nl, "# " + w + nl + "a: b" + nl,
                         "- |" + nl + " " + w + nl + "- x" + nl, "'" + w + "': \"" + w + "\"" + nl + w + ": " + w + nl, "%YAML 1." + w + nl + "---" + nl]
+    # characters that Unicode calls white space (or a line break) but YAML does not, at every place where the scanner
+    # skips blanks: they are content (or an error) for every back-end alike; std helpers such as str::trim_start,
+    # char::is_whitespace or str::lines disagree with YAML about them
+    for w in ("\u00a0", "\u2003", "\u3000", "\u1680", "\u2028", "\u2029", "\u0085", "\x0b", "\x0c", "\x1c", "\ufeff", "\u200b", "\n", "\r", "\r\n", "\t", " \t ",
+              " \n ", "\t\n"):
+        for t in ("%%YAML%s1.2\n---\na\n", "%%YAML 1.2%s\n---\na\n", "%%TAG%s!e! tag:x,\n--- !e!a b\n", "%%TAG !e!%stag:x,\n--- !e!a b\n", "%%FOO%sbar\n--- a\n",
+                  "-%sa\n- b\n", "k:%sv\nm: n\n", "?%sk\n:%sv\n", "[a,%sb]\n", "{k:%sv}\n", "a%s# c\nb\n", "|%s\n x\ny\n", "---%sa\n", "&a%sx\n", "!t%sx\n",
+                  "'q'%s: v\n", "a\n...%s\nb\n", "%sa: b\n", "a: b%s\n", "- a%s\n- b\n", "\"x%sy\"\n", "k: |\n  a%s\n  b\n", "# c%sd\nv\n", "*a%s\n"):
+            out.append(t.replace("%s", w).replace("%%", "%"))
     # runs of document markers between, before and behind documents
     A = ["a: 1\n", "- x\n", "", "# c\n", "--- a\n", "a\n...\n", "%YAML 1.2\n--- a\n", "|\n x\n", "[a]\n", "--- |\n", "&x a\n",
          "%TAG !e! tag:e,\n--- !e!a b\n"]
